@@ -10,6 +10,7 @@
 #ifndef VP_GW_H
 #define VP_GW_H
 #include <stdio.h>
+#include <time.h>
 #include <stdlib.h>
 #include <string.h>
 #include <stdint.h>
@@ -190,19 +191,22 @@ static int gw_forked;             /* child of the fork/resume supervisor: a mism
 /* ---- current program (for sanitizer death callback) ---- */
 static VP_TLS const int *gw_cur_prog;
 static VP_TLS int gw_cur_n, gw_cur_step;
+/* the replaying thread's instances, for reports raised on a thread of the library under test (task threads) */
+static const int **gw_main_prog; static int *gw_main_n, *gw_main_step;
 static void gw_print_stats(int complete);
 void __sanitizer_set_death_callback(void (*cb)(void));
 static void gw_death(void) {
     static int once;
     if (once++) return;
     char sig[96];
+    if (!gw_cur_prog && gw_main_prog && *gw_main_prog) { gw_cur_prog = *gw_main_prog; gw_cur_n = *gw_main_n; gw_cur_step = *gw_main_step; }
     snprintf(sig, sizeof sig, "sanitizer-%s", gw_cur_prog && gw_cur_step < gw_cur_n ? gw_edges[gw_cur_prog[gw_cur_step]].act : "end");
     gw_max_reports = 1 << 30;
     gw_mismatch(gw_cur_prog, gw_cur_n, gw_cur_step, sig, "sanitizer/crash report while executing this step (see driver output)");
     if (gw_forked) { printf("RESUME %llu\n", (unsigned long long)gw_ordinal); }
     gw_print_stats(0);
 }
-static void gw_install_death(void) { __sanitizer_set_death_callback(gw_death); }
+static void gw_install_death(void) { gw_main_prog = &gw_cur_prog; gw_main_n = &gw_cur_n; gw_main_step = &gw_cur_step; __sanitizer_set_death_callback(gw_death); }
 
 /* Library nondeterminism: is there a sibling edge (same source, same action, same first `fixed` args)
  * whose destination matches what the implementation produced?  Then the program is simply not the
@@ -487,7 +491,12 @@ static int gw_main(int argc, char **argv) {
         /* supervisor: run the enumeration in a child; when the child dies on a mismatch/crash, resume after that program */
         uint64_t skip = 0;
         int max_children = getenv("GW_MAX_CHILDREN") ? atoi(getenv("GW_MAX_CHILDREN")) : 200;
+        /* once something was found, the remaining enumeration gets a bounded amount of wall time (a defect that makes every
+           other program hang would otherwise cost max_children x the hang timeout) */
+        time_t first_bad = 0;
+        long after_bad = getenv("GW_AFTER_MISMATCH_S") ? atol(getenv("GW_AFTER_MISMATCH_S")) : 180;
         for (int c = 0; c < max_children; c++) {
+            if (first_bad && time(NULL) - first_bad > after_bad) break;
             int pfd[2];
             if (pipe(pfd)) return 2;
             fflush(stdout);
@@ -519,6 +528,7 @@ static int gw_main(int argc, char **argv) {
             waitpid(pid, &st, 0);
             if (WIFEXITED(st) && WEXITSTATUS(st) == 0) return 0;
             if (resume < 0) { printf("MISMATCH sig=driver-died replay=- :: child ended with status %d without a resume point\n", st); return 1; }
+            if (!first_bad) first_bad = time(NULL);
             skip = (uint64_t)resume;     /* gw_ordinal was already incremented past the failing program */
         }
         printf("NOTE too many child restarts; enumeration truncated\n");
